@@ -277,6 +277,14 @@ def _val(x):
             return False
         x = x.rstrip('?')
         return Fraction(x)
+    if x[0] == 'fp' and len(x) == 4:
+        def bits(t):
+            return bin(int(t[2:], 16))[2:].zfill(4 * (len(t) - 2)) if t.startswith('#x') else t[2:]
+        b = bits(x[1]) + bits(x[2]) + bits(x[3])
+        import struct
+        return struct.unpack('<d', struct.pack('<Q', int(b, 2)))[0]
+    if x[0] == '_' and len(x) == 4 and x[1] in ('+zero', '-zero'):
+        return 0.0
     if x[0] == '-':
         if len(x) == 2:
             return -_val(x[1])
